@@ -45,6 +45,7 @@ def run(ctx, deep=False):
         total += frame_try.run_gen(ctx, gen, n)
     ctx.count("frames", total)
     unknown_ids(ctx, frame_try, thorough)
+    misread(ctx, frame_try, thorough)
     for gen in (4, 5):
         items = _garbage_scripts(ctx.rng, 600 if thorough else 120) + sockcheck.gen_scripts(ctx.seed * 53 + gen, [("faults", 1500 if thorough else 200)])
         good = sockcheck.judge_family(ctx, "C17", items, MONITORS, gen=gen)
@@ -62,6 +63,56 @@ def run(ctx, deep=False):
                           "%s (%d cases), e.g. %s" % (cls, count, example[:400]), kind="input", mismatch_class=cls, example=example,
                           implementation_output=example, spec_verdict="decoded to the vendor reading")
     ctx.assumptions += ["AirTouch 5 byte stuffing (a 0x00 after three 0x55) is not implemented by the package and not modelled (frames are unstuffed on both sides)"]
+
+
+def misread(ctx, frame_try, thorough):
+    """"never misread", on the implementation alone: a frame whose structure is intact (prefix, addresses, length field) but whose two
+    check bytes are not the CRC-16/MODBUS of the covered bytes AS THE INDEPENDENT SPECIFICATION COMPUTES IT must not be delivered as a
+    message - whichever way it is wrong: check bytes swapped, off by one, complemented, zeroed, or stale after one payload / header bit
+    changed."""
+    import codec
+    rng = ctx.rng
+    for gen in (4, 5):
+        real = frame_try.Real(gen)
+        frames = []
+        for _ in range(400 if thorough else 80):
+            mid = rng.choice([0x2B, 0x2D, 0x1F, 0xC0, 0x7E, rng.randrange(256)])
+            frames.append(bytearray(real.raw_frame(mid, codec.rand_bytes(rng, rng.choice([0, 1, 2, 6, 8, 12, 30])), to=rng.choice([0xB0, 0x80, 0xB7]),
+                                                   pid=rng.randrange(256))))
+        want = ctx.oracle(["crc " + (codec.hx(bytes(f[real.cs_start:-2])) or "-") for f in frames])
+        worst = None
+        for f, w in zip(frames, want):
+            good = bytes.fromhex(w)
+            f[-2:] = good
+            variants = [("the specification's check bytes", bytes(f), True)]
+            wrong = [("check bytes swapped", good[::-1]), ("check value + 1", ((int.from_bytes(good, "big") + 1) & 0xFFFF).to_bytes(2, "big")),
+                     ("check bytes complemented", bytes(b ^ 0xFF for b in good)), ("check bytes zero", b"\x00\x00"),
+                     ("low check byte repeated", bytes([good[1], good[1]])), ("check value little/big-endian of CRC-16/CCITT style (xor 0xFFFF, swapped)",
+                                                                              bytes(b ^ 0xFF for b in good[::-1]))]
+            for what, cb in wrong:
+                if cb != good:
+                    variants.append((what, bytes(f[:-2]) + cb, False))
+            body = [i for i in range(real.cs_start, len(f) - 2) if not (real.hlen - 2 <= i < real.hlen)]
+            if body:
+                g = bytearray(f)
+                i = rng.choice(body)
+                g[i] ^= 1 << rng.randrange(8)
+                variants.append(("one covered bit changed, check bytes stale", bytes(g), False))
+            for what, fr, ok in variants:
+                txt, hm = real.read_one(fr)
+                ctx.case(("misread", gen, fr))
+                ctx.count("misread:%s:%s" % ("intact" if ok else "damaged", txt.split(" ")[0]))
+                why = None
+                # (an intact frame may still be refused because its random payload does not decode: counted, not judged here -
+                # delivery of intact frames is what unknown_ids() and the frame differential judge)
+                if not ok and hm is not None:
+                    why = "a frame with wrong check bytes (%s; the CRC of the covered bytes is %s) is delivered as %s" % (what, w, txt[:160])
+                if why and (worst is None or len(fr) < len(worst[0])):
+                    worst = (fr, why, txt)
+        if worst:
+            fr, why, txt = worst
+            ctx.violation("C17:%d:misread" % gen, "AirTouch %d receive path, stream %s: %s" % (gen, codec.hx(fr), why), kind="input", gen=gen, level="misread",
+                          frame=codec.hx(fr), implementation_output=txt[:300], spec_verdict=why)
 
 
 def unknown_ids(ctx, frame_try, thorough):
@@ -130,5 +181,13 @@ def search(ctx):
 def replay(ctx, data):
     if "script" in data:
         return sockcheck.replay(ctx, data)
+    if data.get("level") == "misread":
+        import frame_try
+        fr = bytes.fromhex(data["frame"])
+        real = frame_try.Real(data["gen"])
+        txt, hm = real.read_one(fr)
+        spec = ctx.oracle(["crc " + fr[real.cs_start:-2].hex()])[0]
+        print("stream %s\n  implementation: %s\n  check bytes on the wire %s, CRC-16/MODBUS of the covered bytes (specification) %s" % (fr.hex(), txt, fr[-2:].hex(), spec))
+        return 1 if (hm is not None) != (fr[-2:].hex() == spec.lower()) else 0
     print(data.get("what"))
     return 1
